@@ -159,6 +159,9 @@ def run_C02(ctx):
     stateful(ctx, res, "labware", corpus_progs(ctx, "labware") + progs, ["limits"], stop_on_error=False)
     progs = [G.gen_worklist_program(rng, {"p_fail": 0.6, "kinds": ["transfer"] * 3 + ["aspirate", "dispense", "distribute", "add", "remove"], "p_dist_alias": 0.3, "p_trough": 0.45})
              for _ in range(ctx.n(150))]
+    # ... also on labware that carry a name the library itself defines ("Systemliquid"): limits are limits
+    progs += [G.gen_worklist_program(rng, {"p_fail": 0.8, "kinds": ["transfer", "aspirate", "aspirate"], "fail_kinds": ["aspirate", "transfer"],
+                                           "p_library_name": 0.6, "nops": (1, 3), "p_trough": 0.3}) for _ in range(ctx.n(30))]
     stateful(ctx, res, "worklist", corpus_progs(ctx, "worklist") + progs, ["limits"], stop_on_error=False)
     progs = [gen_evo_program(rng, p_fail=0.3) for _ in range(ctx.n(60))]
     stateful(ctx, res, "evo", progs, ["limits"], stop_on_error=False)
@@ -340,6 +343,25 @@ def run_C06(ctx):
     stateful(ctx, res, "transfer-split", progs, ["split"])
     # the same worklist object with `max_volume` / `auto_split` reassigned between transfers (volumes are re-used
     # after the change): the split must follow the configuration in effect at the time of the call
+    # requested volumes above 7158278 uL — the largest volume ONE record may carry — on labware that can hold them: with
+    # auto_split every step is <= max_volume, so such a transfer is split like any other (never refused for being large)
+    big = []
+    for _ in range(ctx.n(10)):
+        M = rng.choice([F(500000), F(950000), F(1000000), F(262144)])
+        v = rng.choice([F(7158278), F(7158279), F(10**7), F(14400001, 2), F(7158278) + M])
+        labs = [{"kind": "plate", "name": n, "rows": 1, "cols": 2, "min": F(0), "max": F(3 * 10**7), "init": ("V", [F(15 * 10**6), F(0)]), "names": {}}
+                for n in ("carboy A", "carboy B")]
+        ops = [{"op": "transfer", "src": 0, "dst": 1, "label": None, "wash": 1, "partition_by": "auto", "kw": {},
+                "src_wells": ("V", ["A01"]), "dst_wells": ("V", [rng.choice(["A01", "A02"])]), "vols": ("V", [v])}]
+        big.append({"cfg": {"dev": rng.choice(["evo", "fluent"]), "max_volume": M, "auto_split": True, "diti_mode": False},
+                    "labs": labs, "ops": ops, "exact": True})
+    runs_big = stateful(ctx, res, "transfer-above-record-limit", big, ["split"])
+    for p, r in zip(big, runs_big):
+        if r.obs and r.obs[0]["err"] is not None:
+            case = {"kind": "stateful", "stream": "transfer-above-record-limit", "prog": p, "oracles": ["split"], "stop_on_error": True, "strict_value": False}
+            res.viol.append(Finding("transfer-above-record-limit", case,
+                                    f"auto-split transfer of {float(p['ops'][0]['vols'][1][0])} uL with max_volume {float(p['cfg']['max_volume'])} "
+                                    f"was refused: {r.obs[0]['exc']}", "C06:refused-for-being-large"))
     prof2 = dict(prof, kinds=["transfer", "transfer", "reconfigure"], nops=(3, 6), p_fail=0.0, p_reuse_after_reconfigure=0.7, p_near_equal=0.0)
     progs = [G.gen_worklist_program(rng, prof2) for _ in range(ctx.n(60))]
     stateful(ctx, res, "transfer-reconfigured", progs, ["split"])
@@ -361,6 +383,20 @@ def run_C11(ctx):
     prof = {"p_fail": 0.05, "nops": (2, 10), "kinds": ["transfer"] * 4 + ["aspirate", "dispense", "distribute", "add", "remove", "misc"], "p_dist_alias": 0.2, "p_same_name": 0.2}
     progs = corpus_progs(ctx) + [G.gen_worklist_program(rng, prof) for _ in range(ctx.n(220))]
     stateful(ctx, res, "history", progs, ["history"])
+    # identical twins (two objects equal in name, geometry, limits and contents): a transfer between them — also one that
+    # moves nothing, or one that leaves them with equal contents again — is a transfer between TWO labware
+    twins = []
+    for _ in range(ctx.n(30)):
+        p = G.gen_worklist_program(rng, {"p_fail": 0.0, "nops": (0, 2), "kinds": ["transfer"], "p_twin": 1.0, "nlabs": [2], "p_trough": 0.2})
+        lab0 = p["labs"][0]
+        R, C = (1 if lab0["kind"] == "trough" or lab0.get("vrows") is not None else lab0["rows"]), lab0["cols"]
+        w = G.wid(0, 0)
+        # a transfer 0 -> 1 that moves nothing, and one back and forth that restores equal contents
+        z = {"op": "transfer", "src": 0, "dst": 1, "label": "nothing", "wash": 1, "partition_by": "auto", "kw": {},
+             "src_wells": ("V", [w]), "dst_wells": ("V", [w]), "vols": ("V", [F(0)])}
+        p["ops"] = [z] + p["ops"] + [dict(z, label="again")]
+        twins.append(p)
+    stateful(ctx, res, "history-twins", twins, ["history"])
     # a refused operation in the middle of a script that goes on: earlier history entries must stay what they were
     prof2 = dict(prof, p_fail=1.0, nops=(1, 4), after_fail=(1, 5),
                  fail_kinds=["transfer", "aspirate", "dispense", "distribute", "aspirate", "dispense"])
@@ -399,6 +435,25 @@ def run_C16(ctx):
         msg = base_refuses(pb, rb)
         if msg:
             res.viol.append(Finding("devices", dict(case, prog=pb), msg, "C16:base-guesses"))
+    # twin-only: column groups split into 255..300 partitions (1000+ records; too costly for the model stream): the two
+    # devices still emit the same records for plates
+    for k in [255, 256, 257, 258, 300][: max(2, ctx.n(5))] if ctx.tier == "thorough" else [258, rng.choice([256, 257, 259, 300, 515])]:
+        M = F(2)
+        recs = []
+        for dev in ("evo", "fluent"):
+            wl = impl.make_wl({"dev": dev, "max_volume": M, "auto_split": True})
+            A = impl.Labware("A", 2, 1, min_volume=0, max_volume=4000, initial_volumes=2000)
+            B = impl.Labware("B", 2, 1, min_volume=0, max_volume=4000)
+            wl.transfer(A, ["A01", "B01"], B, ["A01", "B01"], [float(k * M), float(k * M)])
+            recs.append([str(r) for r in wl])
+            res.evaluations += 1
+        if recs[0] != recs[1]:
+            d = next((i for i, (x, y) in enumerate(zip(recs[0], recs[1])) if x != y), min(len(recs[0]), len(recs[1])))
+            case = {"kind": "fn", "fn": "many partitions on both devices", "partitions": k}
+            res.viol.append(Finding("devices-many-partitions", case,
+                                    f"two wells split into {k} steps each: EVO {len(recs[0])} records, Fluent {len(recs[1])}; first difference at {d}: "
+                                    f"{recs[0][d:d+1]} vs {recs[1][d:d+1]}", "C16:evo-fluent-differ"))
+        res.dist["twin-only: column group split into 255+ partitions"] += 1
     # twin-only: one worklist per device meets a sequence of PLATES that all carry the same name but differ in
     # geometry; every record must be the same on both devices (plates are numbered alike)
     for _ in range(ctx.n(6)):
